@@ -552,7 +552,7 @@ package main
 //@ invariant[0] len(s) == len(c.desc.OneofDecl) && fresh(s) && !isnilslice(s)
 //@ invariant[0] imp(done(j0), s[j0] == camel(nm(j0)))
 //@ ensures [C07,C15] len(result) == len(c.desc.OneofDecl)
-//@ ensures [C07,C15] imp(0 <= j0 && j0 < len(result), result[j0] == camel(nm(j0)))
+//@ ensures [C07,C15] imp(!c.config.Sort && 0 <= j0 && j0 < len(result), result[j0] == camel(nm(j0)))
 //@ ensures [C15] imp(c.config.Sort && 0 <= i0 && i0 < j0 && j0 < len(result), result[i0] <= result[j0])
 
 // ===================================================================== CopyFrom, emitted code
